@@ -771,6 +771,71 @@ fn backpressure(res: &mut PartResult, buffer: Option<usize>) {
     res.sample(json!({"history": "slow client stalls for 6000 emits while a fast client reads; then the slow client resumes", "buffer": format!("{:?}", buffer)}));
 }
 
+/// A client that has nothing more to send may shut down its sending half (`shutdown(Write)`, what `nc -N` and many
+/// request/response clients do) and keep reading: it is still connected and reading, so it keeps receiving every metric,
+/// and so does everybody else. Scripted history: two clients connect, 5 emits, client A half-closes, 50 emits.
+fn half_closed_client(res: &mut PartResult, buffer: Option<usize>) {
+    res.engine = "E4 scripted history: a client half-closes (shutdown(Write)) and keeps reading".into();
+    res.executions = 1;
+    res.states = 1;
+    res.distinct_outcomes = 1;
+    PLAN.lock().unwrap().clear();
+    let ex = match start(buffer) {
+        Ok(e) => e,
+        Err(e) => {
+            res.violation("exporter-failed-to-start", e, json!({}));
+            return;
+        }
+    };
+    let mk = |addr: SocketAddr| -> Client {
+        let c = TcpStream::connect(addr).unwrap();
+        c.set_nonblocking(true).unwrap();
+        Client { stream: Some(c), buf: vec![], metadata_at_connect: vec![], expected: vec![], optional: vec![], open: true, ever: true, meta_unjudged: false }
+    };
+    let mut a = mk(ex.addr);
+    let mut b = mk(ex.addr);
+    let _ = barrier(&ex.rec);
+    let c = ex.rec.register_counter(&Key::from_name("c_m"), &META);
+    let total = 55u64;
+    for sq in 1..=total {
+        if sq == 6 {
+            let _ = a.stream.as_ref().unwrap().shutdown(std::net::Shutdown::Write);
+            let _ = barrier(&ex.rec);
+            let _ = barrier(&ex.rec);
+        }
+        c.increment(sq);
+        res.transitions += 1;
+        if barrier(&ex.rec).is_err() {
+            res.violation("exporter-does-not-serve", "transport stopped responding".into(), json!({"half_close": true}));
+            return;
+        }
+        drain(&mut a);
+        drain(&mut b);
+    }
+    let t_end = Instant::now();
+    while t_end.elapsed() < Duration::from_millis(400) {
+        drain(&mut a);
+        drain(&mut b);
+        std::thread::sleep(Duration::from_millis(10));
+    }
+    for (name, cl) in [("half-closed", &a), ("other", &b)] {
+        match pbwire::split_stream(&cl.buf) {
+            Err(e) => res.violation("stream-is-not-whole-event-frames", format!("{} client: {}", name, e), json!({"half_close": true})),
+            Ok((frames, _)) => {
+                let seqs: Vec<u64> = frames.iter().filter_map(|f| if let Frame::Metric { op, .. } = f { op.trim_start_matches("increment_counter(").trim_end_matches(')').parse().ok() } else { None }).collect();
+                // buffer_size(Some(1)) may legitimately drop older frames between two barriers; the newest must arrive
+                let complete = seqs == (1..=total).collect::<Vec<u64>>();
+                let ok = if buffer == Some(1) || buffer == Some(2) { seqs.last() == Some(&total) && seqs.windows(2).all(|w| w[0] < w[1]) } else { complete };
+                if !ok {
+                    res.violation("emitted-frame-not-delivered", format!("buffer_size({:?}): two clients connect, 5 emits, client A shuts down its SENDING half and keeps reading, 50 more emits: the {} client received sequence numbers {:?} (expected 1..={})", buffer, name, seqs, total), json!({"half_close": true}));
+                }
+                res.notes.push(format!("{} client got {} frames", name, seqs.len()));
+            }
+        }
+    }
+    res.sample(json!({"history": "connect A, B; 5 emits; A.shutdown(Write); 50 emits", "expected": "both receive 1..=55", "buffer": format!("{:?}", buffer)}));
+}
+
 /// Emits must reach a connected, reading client without anybody else waking the transport thread: the harness's
 /// quiescence barrier wakes it, so the event histories cannot see a wake-up the exporter forgot. Here nothing but the
 /// emits themselves ever wakes it: 12 rounds of two back-to-back counter increments (one with a tiny key, one with a key
@@ -897,6 +962,7 @@ fn parts(ctx: &Ctx) -> Vec<PartSpec> {
             v.push(PartSpec::new(&format!("histories-len3-1client-buffer{}-dev2", bn), json!({"len": 3, "clients": 1, "buffer": bj, "dev": 2, "devlen": 3, "shard": 0, "shards": 1})).budget(b));
         }
         v.push(PartSpec::new(&format!("backpressure-buffer{}", bn), json!({"bp": true, "buffer": bj})).budget(120.0));
+        v.push(PartSpec::new(&format!("half-closed-client-buffer{}", bn), json!({"halfclose": true, "buffer": bj})).budget(120.0));
         if bv != Some(1) {
             // (with buffer 1 two back-to-back emits exceed the rate the buffer allows)
             v.push(PartSpec::new(&format!("unaided-delivery-buffer{}", bn), json!({"unaided": true, "buffer": bj})).budget(120.0));
@@ -936,6 +1002,8 @@ fn run(ctx: &Ctx, spec: &PartSpec) -> PartResult {
         batched(ctx, &mut res, spec.arg["len"].as_u64().unwrap_or(4) as usize, spec.arg["clients"].as_u64().unwrap_or(2) as usize, buffer, spec.arg["shard"].as_u64().unwrap_or(0) as usize, spec.arg["shards"].as_u64().unwrap_or(1) as usize);
     } else if spec.arg["unaided"].as_bool() == Some(true) {
         unaided_delivery(&mut res, buffer);
+    } else if spec.arg["halfclose"].as_bool() == Some(true) {
+        half_closed_client(&mut res, buffer);
     } else if spec.arg["bp"].as_bool() == Some(true) {
         backpressure(&mut res, buffer);
     } else {
@@ -948,7 +1016,7 @@ fn main() {
     driver::main(CheckDef {
         prop: "C11",
         level: "model_checking",
-        rule: "every well-formed history of at most N events over {connect(i), connect(i) immediately followed by an emit (no barrier: the accept and the metric can share a wake-up), read(i), close(i), reset(i) (SO_LINGER 0), describe(counter | gauge + histogram), emit(10 operations incl. labels, a zero increment / absolute, a NaN gauge value, an infinite sample)} with 2-3 clients, for buffer_size in {Some(1), Some(2), Some(1024), None}, against a fresh real exporter (public TcpBuilder::build) with a quiescence barrier after every event (wake; wait for a fully processed batch; twice), plus for fan-out histories every assignment of at most d deviating answers {Short(1), Short(5), WouldBlock} to the exporter's first write calls (deviation-bounded, default Full); every client's byte stream is decoded by an independent protobuf wire parser: whole frames only, metadata known at connect first, then exactly the emits issued while connected, in order, intact, no duplicates (with a small buffer and held-back writes only older frames may be missing); the same histories with every contiguous run of >= 2 events delivered to the transport thread as ONE poll batch (the thread is parked between two polls by a hook while the harness causes them; runs whose channel traffic exceeds the buffer excluded); one scripted real back-pressure history per buffer config (with no limit configured the stalled client, too, receives every frame once it reads again); per buffer config 12 rounds of two back-to-back emits awaited with no other wake-up source (lost wake-ups); distinct = distinct per-client delivery summaries",
+        rule: "every well-formed history of at most N events over {connect(i), connect(i) immediately followed by an emit (no barrier: the accept and the metric can share a wake-up), read(i), close(i), reset(i) (SO_LINGER 0), describe(counter | gauge + histogram), emit(10 operations incl. labels, a zero increment / absolute, a NaN gauge value, an infinite sample)} with 2-3 clients, for buffer_size in {Some(1), Some(2), Some(1024), None}, against a fresh real exporter (public TcpBuilder::build) with a quiescence barrier after every event (wake; wait for a fully processed batch; twice), plus for fan-out histories every assignment of at most d deviating answers {Short(1), Short(5), WouldBlock} to the exporter's first write calls (deviation-bounded, default Full); every client's byte stream is decoded by an independent protobuf wire parser: whole frames only, metadata known at connect first, then exactly the emits issued while connected, in order, intact, no duplicates (with a small buffer and held-back writes only older frames may be missing); the same histories with every contiguous run of >= 2 events delivered to the transport thread as ONE poll batch (the thread is parked between two polls by a hook while the harness causes them; runs whose channel traffic exceeds the buffer excluded); one scripted history per buffer config in which a client shuts down its sending half and keeps reading (it and the other client receive everything); one scripted real back-pressure history per buffer config (with no limit configured the stalled client, too, receives every frame once it reads again); per buffer config 12 rounds of two back-to-back emits awaited with no other wake-up source (lost wake-ups); distinct = distinct per-client delivery summaries",
         assumptions: &["kernel / mio readiness order inside one epoll batch is not enumerated: one harness event at a time, exporter run to quiescence in between", "Interrupted is not in the write-answer alphabet (a non-blocking socket write cannot return EINTR on Linux)", "every history ends with one extra emit so that frames held back by an injected short or would-block answer are driven out"],
         parts,
         run,
